@@ -15,7 +15,8 @@
   in use) is mirrored.  Contexts are keyed `none` (the socket's own context) or `some c`.
 -/
 import NngModel.Proto.Base
-import NngModel.Generated.Consts
+import NngModel.Generated.Base
+import NngModel.Generated.C07
 namespace Nng.Survey
 open Nng Nng.Proto
 
